@@ -400,7 +400,7 @@ fn plans(_t: Tier) -> Vec<&'static str> {
 fn alphabet(plan: &str, v: &str, _t: Tier) -> Alphabet {
     if v == "sem" {
         // page-granular LOS grants of different sizes (free-list coalescing), immortal (monotone, never released)
-        return Alphabet { sizes: vec![48, 12296], sems: vec![Sem::Los, Sem::Immortal], gc_kinds: vec![true], bursts: vec![(264, 100, 2)], align_bursts: false, eph_chains: vec![], two_mutators: false, pins: false, cross_writes: false, fields: 0 };
+        return Alphabet { sizes: vec![48, 12296], sems: vec![Sem::Los, Sem::Immortal], gc_kinds: vec![true], bursts: vec![(264, 100, 2)], refused_allocs: false, align_bursts: false, eph_chains: vec![], two_mutators: false, pins: false, cross_writes: false, fields: 0 };
     }
     Alphabet {
         sizes: vec![40, 264, 81920],
@@ -413,7 +413,7 @@ fn alphabet(plan: &str, v: &str, _t: Tier) -> Alphabet {
         // mprotect'ed page per object -- for both the 80 KiB burst alone (1200 pages) crosses a
         // chunk of the one space they allocate in)
         bursts: if plan == "NoGC" || plan == "PageProtect" { vec![(264, 100, 2), (81920, 60, 4)] } else { vec![(264, 100, 2), (2048, 2500, 50), (81920, 60, 4)] },
-        align_bursts: false, eph_chains: vec![], two_mutators: true,
+        refused_allocs: false, align_bursts: false, eph_chains: vec![], two_mutators: true,
         pins: false,
         cross_writes: false,
         fields: 0,
